@@ -220,15 +220,16 @@ TIE_PROCESS = ["process_tie"]
 TIE_SAMPLER = ["sampler_process_tie"]
 TIE_PUSHLINE = ["time_range_update_tie", "push_line_tie"]
 TIE_PUSHDATA = ["index_update_tie", "push_data_tie"]
+TIE_REPAIR = ["repair_incomplete_last_write_tie", "repaired_is_only_meta_tie", "file_new_tie"]
 TIES = {
-    "C16": ["push_line_tie", "time_range_update_tie", "process_tie"] + TIE_PUSHDATA,
+    "C16": ["push_line_tie", "time_range_update_tie", "process_tie"] + TIE_PUSHDATA + TIE_REPAIR,
     "C01": TIE_SEEK + TIE_META + TIE_PUSHDATA, "C02": TIE_SEEK, "C13": TIE_SEEK, "C18": TIE_SEEK,
     "C14": TIE_SEEK + ["pos_lines_tie"], "C10": TIE_SEEK + ["pos_lines_tie"] + TIE_SAMPLER,
     "C11": TIE_SEEK + ["pos_lines_tie", "estimate_lines_tie", "data_len_tie"] + TIE_SAMPLER,
     "C19": TIE_SEEK + ["pos_lines_tie", "estimate_lines_tie"] + [t for t in TIE_LINEPOS if t not in TIE_SEEK] + TIE_CATCHUP + TIE_PROCESS,
     "C09": TIE_LINEPOS + TIE_CATCHUP + TIE_PROCESS, "C08": TIE_LINEPOS + TIE_CATCHUP + TIE_PROCESS + TIE_PUSHLINE,
     "C12": TIE_LEN + ["range_tie", "first_meta_timestamp_tie"] + TIE_PUSHLINE,
-    "C04": TIE_LEN + TIE_META, "C05": TIE_LEN, "C06": TIE_LEN + TIE_META + TIE_PUSHDATA,
+    "C04": TIE_LEN + TIE_META + TIE_REPAIR, "C05": TIE_LEN + TIE_REPAIR, "C06": TIE_LEN + TIE_META + TIE_PUSHDATA,
     "C07": TIE_LAYOUT + TIE_META, "C15": TIE_LAYOUT + TIE_META + TIE_PUSHDATA,
     "C03": ["MAX_SMALL_TS_tie", "process_tie"] + TIE_PUSHLINE + TIE_PUSHDATA,
 }
@@ -237,7 +238,8 @@ TIES = {
 GENCORE = {
     "C02": ["gen_seek_spec", "gen_seek_is_model", "fileFits_of_inv"], "C13": ["gen_seek_spec"], "C14": ["gen_seek_spec"],
     "C10": ["gen_seek_spec"], "C01": ["gen_seek_spec", "gen_write_is_documented_section", "gen_push_data_keeps_documented_format"],
-    "C16": ["gen_push_data_only_appends"], "C06": ["gen_push_data_keeps_documented_format"],
+    "C16": ["gen_push_data_only_appends", "gen_open_repair_identity_on_intact"], "C06": ["gen_push_data_keeps_documented_format"],
+    "C04": ["gen_open_repair_identity_on_intact"], "C05": ["gen_open_repair_yields_written_prefix"],
     "C11": ["gen_estimate_total", "gen_seek_spec"], "C19": ["gen_estimate_total", "gen_seek_spec"],
     "C09": ["gen_line_pos_exact", "linePosFits_of_inv"], "C08": ["gen_line_pos_exact"],
     "C07": ["gen_write_is_documented_section"], "C15": ["gen_write_is_documented_section", "gen_push_data_keeps_documented_format"],
